@@ -113,7 +113,37 @@ class Conn:
 import re as _re
 
 _SELECT = _re.compile(r"^SELECT (.+?) FROM KNOWN_HOSTS(?: WHERE (.+?))?(?: ORDER BY (.+))?$")
-_INSERT = _re.compile(r"^(?:INSERT( OR REPLACE)?|REPLACE) INTO KNOWN_HOSTS \((.+?)\) VALUES \((?:\?,? ?)+\)$")
+_INSERT = _re.compile(r"^(?:INSERT( OR REPLACE)?|REPLACE) INTO KNOWN_HOSTS \((.+?)\) VALUES \((.+?)\)(?: ON CONFLICT ?\(HOSTNAME, PORT\) (.+))?$")
+
+
+class _Binder:
+    """positional (?) or named (:name) SQL parameters"""
+
+    def __init__(self, params):
+        self.named = params if isinstance(params, dict) else None
+        self.seq = None if isinstance(params, dict) else list(params)
+        self.i = 0
+
+    def value(self, tok):
+        tok = tok.strip()
+        if tok == "?":
+            if self.seq is None or self.i >= len(self.seq):
+                raise HarnessError("too few SQL parameters")
+            v = self.seq[self.i]
+            self.i += 1
+            return v
+        if tok.startswith(":"):
+            if self.named is None:
+                raise HarnessError("named SQL parameter with positional arguments")
+            for k, v in self.named.items():
+                if k.upper() == tok[1:]:
+                    return v
+            raise HarnessError("missing SQL parameter %s" % tok)
+        raise HarnessError("unmodelled SQL value %r" % tok)
+
+    def left(self):
+        return self.seq is not None and self.i < len(self.seq)
+
 _UPDATE = _re.compile(r"^UPDATE KNOWN_HOSTS SET (.+?)(?: WHERE (.+))?$")
 _DELETE = _re.compile(r"^DELETE FROM KNOWN_HOSTS(?: WHERE (.+))?$")
 _ASSIGN = _re.compile(r"^([A-Z_]+) = \?$")
@@ -163,7 +193,8 @@ class Cur:
         s = _norm(sql)
         c.ctl.tick(s[:40])
         self.res = []
-        params = list(params)
+        params_in = params
+        params = list(params.values()) if isinstance(params, dict) else list(params)
         if s.startswith("CREATE TABLE") or s.startswith("PRAGMA") or s.startswith("CREATE INDEX"):
             return self
         if s in ("BEGIN", "BEGIN IMMEDIATE", "BEGIN EXCLUSIVE", "BEGIN TRANSACTION", "BEGIN DEFERRED"):
@@ -194,15 +225,46 @@ class Cur:
             return self
         m = _INSERT.match(s)
         if m:
-            replace, cols = m.group(1), [x.strip().lower() for x in m.group(2).split(",")]
-            if sorted(cols) != sorted(COLS) or len(params) != len(cols):
+            replace, cols, vals, conflict = m.group(1), [x.strip().lower() for x in m.group(2).split(",")], \
+                [x.strip() for x in m.group(3).split(",")], m.group(4)
+            if sorted(cols) != sorted(COLS) or len(vals) != len(cols):
                 raise HarnessError("unmodelled INSERT: " + s)
-            row = dict(zip(cols, params))
+            bind = _Binder(params_in)
+            row = {col: bind.value(tok) for col, tok in zip(cols, vals)}
             key = (row["hostname"], row["port"])
             w = c._w()
-            if key in w and not replace:
-                raise _real.IntegrityError("UNIQUE constraint failed: known_hosts.hostname, known_hosts.port")
-            w[key] = {k: row[k] for k in COLS}
+            if key in w:
+                if replace:
+                    w[key] = {k: row[k] for k in COLS}
+                elif conflict is None:
+                    raise _real.IntegrityError("UNIQUE constraint failed: known_hosts.hostname, known_hosts.port")
+                elif conflict.strip() == "DO NOTHING":
+                    self.rowcount = 0
+                    return self
+                else:
+                    mm = _re.match(r"^DO UPDATE SET (.+)$", conflict.strip())
+                    if not mm:
+                        raise HarnessError("unmodelled ON CONFLICT clause: " + s)
+                    old = w[key]
+                    newvals = {}
+                    for asg in mm.group(1).split(","):
+                        am = _re.match(r"^\s*([A-Z_]+) = (.+?)\s*$", asg)
+                        if not am or am.group(1).lower() not in COLS:
+                            raise HarnessError("unmodelled upsert assignment %r" % asg)
+                        tgt, expr = am.group(1).lower(), am.group(2).strip()
+                        if expr == "?" or expr.startswith(":"):
+                            newvals[tgt] = bind.value(expr)
+                        elif expr.startswith("EXCLUDED."):
+                            newvals[tgt] = row[expr[9:].lower()]
+                        elif expr.lower() in COLS:
+                            newvals[tgt] = old[expr.lower()]          # bare column: the EXISTING row's value
+                        else:
+                            raise HarnessError("unmodelled upsert expression %r" % expr)
+                    old.update(newvals)
+            else:
+                w[key] = {k: row[k] for k in COLS}
+            if bind.left():
+                raise HarnessError("unmodelled SQL (parameters left over): " + s)
             self.rowcount = 1
             return self
         m = _UPDATE.match(s)
